@@ -14,7 +14,7 @@ import KafkaVerif.Model.ReaderFront
 import KafkaVerif.Spec.Layout
 import KafkaVerif.Spec.ByteLayout
 import KafkaVerif.Spec.Crc
-import KafkaVerif.Model.ReaderRun
+import KafkaVerif.Model.ReaderLoopLTS
 import KafkaVerif.Model.PullReader
 import KafkaVerif.Model.ReaderWorld
 
@@ -168,7 +168,7 @@ def tokCfg : TokCfg :=
     dg2 := fun fts r => digestOf r.key r.value (fts + r.tsDelta) r.headers,
     dg1 := fun m => digestOf m.key m.value (if m.magic = 0 then -1 else m.ts) [] }
 
-/-! ### op `rtrace`: replay of the RL.* hook events of one fetcher through the loop LTS (Model/ReaderRun.lean) -/
+/-! ### op `rtrace`: replay of the RL.* hook events of one fetcher through the loop LTS (Model/ReaderLoopLTS.lean) -/
 
 inductive TEv
   | top (a : Nat) (o : Int) | cancel | init (cls : String) (start : Int) | offs (cls : String) (f l : Int)
